@@ -535,6 +535,7 @@ type FuncContract struct {
 	ModViews  []string // view tag per Modifies entry
 	ModAll    bool     // modifies * (everything)
 	NoPanic   bool
+	NoPanicIf *Clause // `nopanic if E`: panics are excluded only for calls whose entry state satisfies E
 	Loops     map[int]*LoopSpec
 	Extern    bool     // assumed, body not verified
 	Trusted   bool     // contract assumed even though body exists (listed as assumption)
@@ -941,6 +942,13 @@ func parseFuncClause(f *FuncContract, word, rest string, no int, mk func(kind, t
 		}
 	case "nopanic":
 		f.NoPanic = true
+		if r := strings.TrimSpace(rest); strings.HasPrefix(r, "if ") {
+			c, err := mk("nopanic-if", strings.TrimSpace(r[3:]), no)
+			if err != nil {
+				return err
+			}
+			f.NoPanicIf = c
+		}
 	case "trusted":
 		f.Trusted = true
 	case "inline":
@@ -978,8 +986,9 @@ func parseFuncClause(f *FuncContract, word, rest string, no int, mk func(kind, t
 		default:
 			return fmt.Errorf("unknown loop clause %q", kind)
 		}
-	case "ghost":
-		// ghost target := value
+	case "ghost", "set":
+		// set target := value   (ghost update executed at normal return; `ghost` cannot be used as the clause word
+		// inside a func block because it opens a ghost declaration block)
 		k := strings.Index(rest, ":=")
 		if k < 0 {
 			return fmt.Errorf("ghost update needs :=")
